@@ -31,7 +31,25 @@ def worker(ctx):
         cfg = pycommon.cfg_for_case(rng, case_id)
         cfg.msg_bits = min(cfg.msg_bits, 1200)
         cfg.big_caps = False
-        S = gen.gen_schema(rng, cfg)
+        if case_id % 4 == 3:
+            # shadowing-rich base schema (the same four type names reused in nested scopes and imported files, see C11):
+            # renames/moves then change WHICH spelling denotes a definition, never what it denotes
+            from props.C11 import ShadowGen
+            sg = ShadowGen(rng, res)
+            imports = []
+            for j in range(rng.choice([0, 1])):
+                g, _ = sg.gen_file(f"lib{j}", [])
+                imports.append((g, rng.choice([None, f"ns{j}"])))
+            S, _ = sg.gen_file("shadowmain", imports)
+            for (fl, text, target) in sg.refs:
+                t = fl.type.elem if hasattr(fl.type, "elem") else fl.type
+                t.forced_path = None  # let the printer choose any spelling that denotes the same definition
+            if not rewrite.printable(S):
+                res.count("shadow_base_not_printable")
+                continue
+            res.count("shadowing_base_schemas")
+        else:
+            S = gen.gen_schema(rng, cfg)
         S2, mapping, done = rewrite.apply_rewrites(S, rng, rng.randint(1, 6))
         if not done:
             res.count("cases_without_applicable_rewrite")
@@ -133,5 +151,5 @@ if __name__ == "__main__":
         assumptions=["the rewrite implementations in vlib/rewrite.py preserve resolved types and field-number order"],
         required_counters=["py_pairs_compared", "c_pairs_compared", "rewrites:rename", "rewrites:reorder-fields", "rewrites:reorder-definitions",
                            "rewrites:introduce-alias", "rewrites:inline-alias", "rewrites:un-nest", "rewrites:nest", "rewrites:move-to-import",
-                           "rewrites:literal-to-constant", "rewrites:renumber"],
+                           "rewrites:literal-to-constant", "rewrites:renumber", "shadowing_base_schemas"],
     )
